@@ -1575,7 +1575,6 @@ class WBEMListener:
                 self.logger.info(
                     "%s indications discarded from indication queue",
                     clr_count)
-            self._ind_queue = None
 
         # Tolerate that callback thread has already stopped, just in case.
         if self._callback_thread:
@@ -1584,6 +1583,12 @@ class WBEMListener:
             self._callback_thread.join()
             self.logger.info("Stopped callback thread")
             self._callback_thread = None
+
+        # The indication queue is released only after the callback thread has
+        # ended: that thread may still be delivering the last indication it
+        # took from the queue (so the queue is already empty), or be waiting
+        # in get(), and accesses the queue through self._ind_queue.
+        self._ind_queue = None
 
     def _stop_listener_threads(self):
         """
